@@ -53,7 +53,7 @@ def dropUCase (cplx : Bool) (ops : UOps K R Float) (c : Case) : Res :=
   let ret := c.pInt "ret" 99999
   let total := rows.length
   let qEff : Int := if rule.nodrop then gn else quota
-  let removed2 := match o.s2 with | some s => s.removed.length | none => 0
+  let removed2 := o.s2.removed.length
   let stale := cplx && milu == .smilu3 && removed2 > 0
   let tags := [s!"ty={c.ty}", s!"milu={c.p "milu"}", s!"rule={dr}", s!"path={o.path}", s!"tk={c.p "tk"}", s!"qk={c.p "qk"}", s!"vmode={c.p "vmode"}",
     s!"joined={c.p "joined"}", s!"dup={c.p "dup"}", s!"ownwork={decide (o.path == "select" ∧ gn < o.m1)}",
